@@ -152,6 +152,7 @@ def _parse(r):
         mm = re.match(r"<(\w+) line \d+, col \d+ to line \d+, col \d+ of module \w+>: (\d+):(\d+)", line)
         if mm:
             r.coverage[mm.group(1)] = (int(mm.group(2)), int(mm.group(3)))
+    r.printed = _printed(out)
     m = re.search(r"Error: (Invariant (\S+) is violated|Action property (\S+) is violated|"
                   r"Temporal properties were violated|Deadlock reached|"
                   r"The postcondition (\S+) (?:was|is) violated[^\n]*|"
@@ -371,3 +372,66 @@ def dump_cached(module, constants, view="view", action_constraint="DumpL",
         os.replace(tmp, path)
         r.cache_path = path
     return r
+
+
+def tagged(r, tag="REJECTED"):
+    """All values printed as PrintT(<<"tag", ...>>) in a run, parsed; works for
+    values TLC pretty-prints over several lines (bracket matching)."""
+    out = []
+    txt = r.out
+    needle = '<<"%s"' % tag
+    i = txt.find(needle)
+    while i != -1:
+        depth, j = 0, i
+        while j < len(txt):
+            if txt.startswith("<<", j):
+                depth += 1
+                j += 2
+                continue
+            if txt.startswith(">>", j):
+                depth -= 1
+                j += 2
+                if depth == 0:
+                    break
+                continue
+            if txt[j] == '"':
+                j += 1
+                while j < len(txt) and txt[j] != '"':
+                    j += 2 if txt[j] == "\\" else 1
+            j += 1
+        try:
+            out.append(parse_value(txt[i:j])[1:])
+        except Exception:  # noqa: BLE001
+            pass
+        i = txt.find(needle, j)
+    return out
+
+
+def _printed(txt):
+    """[(tag, body_text)] for every PrintT(<<"TAG", ...>>) (TAG upper case, not
+    TR), also when TLC pretty-printed the value over several lines."""
+    out = []
+    for m in re.finditer(r'^<<\s*"([A-Z_]+)",\s*', txt, re.M):
+        if m.group(1) == "TR":
+            continue
+        i = m.start()
+        depth, j = 0, i
+        while j < len(txt):
+            if txt.startswith("<<", j):
+                depth += 1
+                j += 2
+                continue
+            if txt.startswith(">>", j):
+                depth -= 1
+                j += 2
+                if depth == 0:
+                    break
+                continue
+            if txt[j] == '"':
+                j += 1
+                while j < len(txt) and txt[j] != '"':
+                    j += 2 if txt[j] == "\\" else 1
+            j += 1
+        body = txt[m.end():j - 2]
+        out.append((m.group(1), " ".join(body.split())))
+    return out
